@@ -83,6 +83,14 @@ class RewriteHooks(QHooks):
             return self._append(E, x, ('tag', next(iter(v))[1]))
         return self._append(E, x, ('expr', x.args[1].src()))
 
+    def prim_stralloc_catb(self, E, x, args):
+        # the same append spelt with an explicit length (the literal's own length: a shorter one would be another text)
+        lit = x.args[1].string
+        n = args[2]
+        if lit is not None and n is not TOP and n == fs(len(lit)):
+            return self._append(E, x, ('lit', lit))
+        return self.prim_stralloc_cats(E, x, args)
+
     def prim_stralloc_cat(self, E, x, args):
         src = self._sa(E, x, 1)
         return self._append(E, x, ('sa', 'addr' if src == getattr(self, '_addr', None) else src))
@@ -117,7 +125,11 @@ class RewriteHooks(QHooks):
         if mp == 'G:mappercenthack' and self.geo:
             return [Outcome(ret=fs(0), sets=sets)]      # fixed geometry: no percent-hack rewriting in this run
         if mp == 'G:mappercenthack':
-            return [Outcome(ret=fs(0), sets=sets), Outcome(ret=fs(('str', '')), sets=dict(sets, **{'$pct': fs(min(g1(E, '$pct', 0) + 1, 3))}), log='percenthack hit')]
+            # after a hit the rewritten address is looked up again: lookups = hits + 1 when the function is done
+            sets['$pctmiss'] = fs(1)      # the address as it stands now has been looked up
+            if g1(E, '$pct', 0) >= 3:
+                return [Outcome(ret=fs(0), sets=sets)]
+            return [Outcome(ret=fs(0), sets=sets), Outcome(ret=fs(('str', '')), sets=dict(sets, **{'$pct': fs(g1(E, '$pct', 0) + 1)}), log='percenthack hit')]
         if mp == 'G:maplocals':
             if self.geo:
                 # arguments must denote the domain part: addr.s + at + 1, len - at - 1
@@ -154,12 +166,22 @@ class RewriteHooks(QHooks):
                 Outcome(ret=fs(('str', '')), sets=dict(sets, **{'$emptyhit': fs(1)}), log='virtualdomains hit, empty tag'),
                 Outcome(ret=fs(('str', 'tag')), sets=dict(sets, **{'$vhit': fs(1)}), log='virtualdomains hit, tag')]
 
+    def on_assign(self, E, x, path, val):
+        # the percent hack shortens the address (user%host@domain -> user@host): from here on it is another address
+        if path and getattr(self, '_addr', None) and path == self._addr + '.len' and g1(E, '$stage', 0) == 1:
+            E.set('$pctmiss', fs(0))
+            E.set('$rewrote', fs(min(g1(E, '$rewrote', 0) + 1, 3)))
+
     def on_return(self, E, fn, val):
         rw = tuple(g1(E, '$rw', ()))
         v = next(iter(val)) if val is not TOP and len(val) == 1 else None
         key = ('local' if g1(E, '$local', 0) else 'vtag' if g1(E, '$vhit', 0) else 'vempty' if g1(E, '$emptyhit', 0) else 'none')
         if v == 0:
             return
+        if not self.geo and fn.name == 'rewrite':
+            self.site('rewrite:percent-hack-applies-repeatedly', None, g1(E, '$pctmiss', 0) == 1,
+                      'after %d percent-hack rewriting(s) the rewritten address is not looked up in control/percenthack again' % g1(E, '$rewrote', 0), E)
+            self.pct_max = max(getattr(self, 'pct_max', 0), g1(E, '$rewrote', 0))
         self.returns.setdefault(key, set()).add((v, rw))
         T, A, N = ('lit', 'T'), ('sa', 'addr'), ('nul',)
         if key == 'local':
@@ -272,14 +294,8 @@ def run(ctx):
     rep.count_states(eng.states, eng.transitions)
     for inst, v in sorted(H.sites.items()):
         r1.check(v[0], inst, v[1], v[2], v[3])
-    # percent hack is a loop condition
-    pl = False
-    for b in fn.blocks.values():
-        if b.term and b.term.get('k') == 'while' and b.cond is not None:
-            for y in b.cond.walk():
-                if y.k == 'call' and y.callee == 'constmap' and 'mappercenthack' in y.args[0].src():
-                    pl = True
-    r1.check(pl, 'rewrite:percent-hack-applies-repeatedly', fn.unit + ':rewrite', 'the percenthack lookup is not a loop condition')
+    if getattr(H, 'pct_max', 0) < 2 and all(v[0] for v in H.sites.values()):
+        raise AnalysisBroken('rewrite: repeated percent-hack rewriting not explored')
     # default host appended iff no @
     ap = [c for c in fn.calls('stralloc_cat') if 'envnoathost' in c.args[1].src()]
     okd = False
